@@ -108,9 +108,12 @@ def _values(fn, rng):
         elif r < 0.75 and n >= 2:
             # INVALID request (must be rejected by every kind): element count a proper divisor / a multiple / off by one
             k = max(range(len(dst)), key=lambda q: dst[q]); m = rng.choice(["div", "div", "mul", "off", "neg", "neg"])
-            if m == "neg":       # negative extents other than the single -1 placeholder: an even number of them keeps the product right
-                if len(dst) == 1: dst = [-dst[0], -1] if dst[0] > 1 else [-2, -1]
-                else: dst[0] = -max(dst[0], 2) if dst[0] != 1 else -2; dst[1] = -max(dst[1], 2) if dst[1] != 1 else -3
+            if m == "neg":       # negative extents other than the single -1 placeholder; an even number of them keeps the PRODUCT equal to the
+                                 # source element count, so only a sign check can reject the request
+                fac = [(a, n // a) for a in range(2, n) if n % a == 0 and n // a >= 2]
+                if fac:
+                    a, b = rng.choice(fac); dst = [-a, -b] + ([1] if rng.random() < 0.3 else [])
+                else: dst = [-2, -3]
                 return [s, dst]
             ds = [q for q in range(1, dst[k]) if dst[k] % q == 0]
             if m == "div" and ds: dst[k] = rng.choice(ds)
@@ -287,6 +290,9 @@ def _generate(seed, tier):
         for _ in range(nsets * (3 if fn == "reshape" else 2 if fn in ("bshape", "bto", "transpose") else 1)):
             vals = _values(fn, rng)
             cases.append((fn, vals, _rows(fn, vals, rng)))
+    # in every run: reshape requests whose product is right but whose extents are negative (not the -1 placeholder) — must be rejected by every kind
+    for vals in ([[2, 3], [-2, -3]], [[1, 2, 1, 3], [-2, 1, -3]], [[4, 3], [-6, -2]], [[2, 2], [-4, -1, -1]]):
+        cases.append(("reshape", vals, _rows("reshape", vals, rng)))
     return cases
 
 
